@@ -25,7 +25,8 @@ def foreign(rng, ft, k=None):
     elif ft == 16:
         kw.update(clusters=rng.choice([4085, 4100, 5000]), rootent=64)
     else:
-        kw.update(clusters=rng.choice([150, 300]), backup=rng.random() < 0.7)
+        kw.update(clusters=rng.choice([150, 300]), backup=rng.random() < 0.7,
+                  backup_bootcode=bytes(rng.randrange(256) for _ in range(200)) if rng.random() < 0.6 else None)
     n = kw["clusters"]
     used = sorted(rng.sample(range(3 if ft == 32 else 2, n + 2), min(12, n - 2)))
     a, b = used[:6], used[6:]
